@@ -705,6 +705,27 @@ func (x *Exec) loop(ls *loopSpec, st *State) *Flow {
 	}
 	edges = append(edges, f.cont...)
 	for ei, back := range edges {
+		hsuffix := ""
+		if len(edges) > 1 {
+			hsuffix = fmt.Sprintf("@edge%d", ei+1)
+		}
+		if ls.lc != nil {
+			// a hint that names a variable declared in the body is stated at the end of the body
+			// (before the post statement); the others are stated on the back edge proper (below)
+			for hi, h := range ls.lc.Hints {
+				if !x.namesBodyLocal(h.Expr, ls) {
+					continue
+				}
+				lbl := h.Label
+				if lbl == "" {
+					lbl = fmt.Sprintf("hint%d", hi+1)
+				}
+				ce := fx.clauseEv(back, ls.node.End()-1, nil)
+				t := ce.boolOf(ce.ev(h.Expr), h.Expr)
+				fx.oblige("hint", lname+".hint."+lbl+hsuffix, ls.node.Pos(), back.pc, t, "proof hint: "+h.Text)
+				fx.assume(back.pc, t)
+			}
+		}
 		for o := range back.env {
 			if _, ok := head.env[o]; !ok {
 				delete(back.env, o)
@@ -723,6 +744,9 @@ func (x *Exec) loop(ls *loopSpec, st *State) *Flow {
 		}
 		if ls.lc != nil {
 			for hi, h := range ls.lc.Hints {
+				if x.namesBodyLocal(h.Expr, ls) {
+					continue
+				}
 				lbl := h.Label
 				if lbl == "" {
 					lbl = fmt.Sprintf("hint%d", hi+1)
@@ -754,6 +778,27 @@ func (x *Exec) loop(ls *loopSpec, st *State) *Flow {
 	}
 	out.fall = fx.mergeScoped(append([]*State{exit}, f.brk...), st)
 	return out
+}
+
+// namesBodyLocal reports whether a clause names a variable declared inside the loop body.
+func (x *Exec) namesBodyLocal(e ast.Expr, ls *loopSpec) bool {
+	end := ls.node.End() - 1
+	scope := x.fx.pkg.Types.Scope().Innermost(end)
+	if scope == nil {
+		return false
+	}
+	found := false
+	ast.Inspect(e, func(n ast.Node) bool {
+		if id, ok := n.(*ast.Ident); ok {
+			if _, o := scope.LookupParent(id.Name, end); o != nil && o.Pos() > ls.bodyPos && o.Pos() < end {
+				if _, isVar := o.(*types.Var); isVar {
+					found = true
+				}
+			}
+		}
+		return true
+	})
+	return found
 }
 
 // havocLike returns a fresh value of the same shape as cur (typed by the variable).
